@@ -37,7 +37,17 @@ PERMANENT = {-32700, -32600, -32601, -32602, -32003, -32005, -32006, -32007, -32
 # server texts that are dangerous to format / log / parse carelessly
 MESSAGES = ["server says {c}", "disk is 100% full ({c})", "%s %d %(name)s {c}", "{{braces}} {{0}} {c}", "file:///My%20Documents/x {c}",
             "line1\nline2 {c}", "cancel scope protocol version {c}", "\u2028\U0001f600 {c}", "{c} " + "long " * 400, "'quoted\" {c}"]
-DATA_SHAPES = ["absent", None, 0, 1.5, "s", [], [1], {}, {"k": None}, True]
+# ("__deepN__": a value nested N levels, built when the case is run - inside what both validation backends represent)
+DATA_SHAPES = ["absent", None, 0, 1.5, "s", [], [1], {}, {"k": None}, True, "__deep300__", "__deep600__"]
+
+
+def _expand_data(d):
+    if isinstance(d, str) and d.startswith("__deep") and d.endswith("__"):
+        v: Any = {"leaf": None}
+        for i in range(int(d[6:-2])):
+            v = [v] if i % 2 else {"d": v}
+        return v
+    return d
 
 
 def _mk(rep: str, rid: str, err: Dict[str, Any]):
@@ -114,7 +124,7 @@ def run(ctx):
             if case["msg"] == "present":
                 err["message"] = MESSAGES[c % len(MESSAGES)].replace("{c}", str(c))
             if case["data"] != "absent":
-                err["data"] = case["data"]
+                err["data"] = _expand_data(case["data"])
             # direct classifier call
             try:
                 direct = E.is_retryable_error(c)
